@@ -64,6 +64,12 @@ def generate(rng, tier, seed):
     p = ["op", "observe_on", [], ["just", 1]]
     cases.append({"scn": ["conc", ["objects", ["tovec", p]], ["init", ["block_on", 0]], ["threads"], ["fini"], ["sched", "dfs", 3000], ["want-choices"]],
                   "sched": ["dfs", 3000], "items": [1], "en": "c", "pipe": sx.dumps(p)})
+    # smallest instance again under many PCT schedules: windows a few lock operations wide (a terminal callback between poll's test of
+    # `done` and its release of the waker slot) are hit by about one PCT-3 schedule in a thousand
+    p = ["op", "observe_on", [], ["just", 1]]
+    nr = 30000 if thorough else 6000
+    cases.append({"scn": ["conc", ["objects", ["tovec", p]], ["init", ["block_on", 0]], ["threads"], ["fini"], ["sched", "pct", 3, seed * 1000 + 7, nr]],
+                  "sched": ["pct", 3, seed * 1000 + 7, nr], "items": [1], "en": "c", "pipe": sx.dumps(p)})
     # a source that never terminates: the future must stay pending (the run ends with the poller parked)
     p = ["op", "observe_on", [], ["op", "concat", [], ["from_iter", 1, 2], ["never"]]]
     cases.append({"scn": ["conc", ["objects", ["tovec", p]], ["init", ["block_on", 0]], ["threads"], ["fini"], ["sched", "random", seed, 20]],
